@@ -175,6 +175,27 @@ def run(chk):
                            cname, name, "; ".join("line %d %s %s" % (fn.line_of(r), kind, (c or "").replace("asmjit::", "")) for r, kind, c in bad[:3])),
                        key="errreport|%s::%s" % (cname, name))
     chk.floor(R + ":interface-functions", n, 20)
+    # the Builder / Compiler API proper (node creators, function management, stack and constant helpers): every member function defined in
+    # the unit that returns Error and may throw (a `noexcept` function cannot call the handler, which is allowed to throw)
+    n_api = 0
+    done = set()
+    for cname in ("BaseBuilder", "BaseCompiler"):
+        for k, fn in sorted(allf.items()):
+            nm = k.split("/")[0]
+            if not nm.startswith("asmjit::%s::" % cname) or k not in cls or not fn.file.endswith(".cpp"):
+                continue
+            short_ = nm.split("::")[-1]
+            if short_ in SKIP or fn.raw.get("noexcept") or ("%s::%s" % (cname, short_)) in done and False:
+                continue
+            if any(k2 == k for k2 in byname.get("asmjit::%s::%s" % (cname, short_), [])) and short_ in {m["name"] for m in (recs.get("asmjit::" + cname) or {}).get("methods", []) if m["virtual"] and any("BaseEmitter::" in o for o in m["overrides"])}:
+                continue            # already judged above
+            bad = [(r, kind, c) for r, kind, c in cls[k] if not fine(k, kind, c)]
+            n_api += 1
+            chk.ob(R, "%s::%s/%d" % (cname, short_, len(fn.params)), not bad, loc=fn.loc(bad[0][0]) if bad else "%s:%d" % (fn.file.replace("/repo/", ""), fn.line),
+                   detail="%s::%s returns an error that never went through report_error(): %s" % (
+                       cname, short_, "; ".join("line %d %s %s" % (fn.line_of(r), kind, (c or "").replace("asmjit::", "")) for r, kind, c in bad[:3])),
+                   key="errreport|%s::%s" % (cname, short_))
+    chk.floor(R + ":api-functions", n_api, 20)
 
     # ---------------------------------------------------------------- one-shot state is cleared before the handler runs
     R2 = "R-RESET-BEFORE-REPORT"
